@@ -558,11 +558,19 @@ def r8(ctx):
                and (fn.nodes[c].get('callee') or '').startswith('ebusd::MessageMap::')]
     n = 0
     for c in lookups:
-        cal = [g for g in fb.functions if g.name == fn.nodes[c]['callee'] and g.sig == fn.nodes[c].get('sig')]
-        li = [i for i, p in enumerate(cal[0].params) if p.get('name') == 'levels'] if cal else []
-        if not li or li[0] >= len(fn.nodes[c]['args']):
+        # the level list argument: a getUserLevels() call, or a local that is assigned from one somewhere in the function
+        a = None
+        for cand in fn.nodes[c]['args']:
+            cn = fn.nodes[fn.strip(cand, casts=True)]
+            while cn.get('k') in ('CXXConstructExpr', 'CXXBindTemporaryExpr', 'MaterializeTemporaryExpr') and (cn.get('args') or cn.get('ch')):
+                cn = fn.nodes[fn.strip((cn.get('args') or cn.get('ch'))[0], casts=True)]
+            if cn.get('k') in ('CXXMemberCallExpr', 'CallExpr') and (cn.get('callee') or '').endswith('::getUserLevels'):
+                a = cand
+            elif cn.get('k') == 'DeclRefExpr' and any(d == cn.get('decl') and rhs is not None and '.getUserLevels(' in fn.key(rhs)
+                                                    for nid, d, rhs, op, lhs in fn.assignments()):
+                a = cand
+        if a is None:
             continue
-        a = fn.nodes[c]['args'][li[0]]
         an = fn.nodes[fn.strip(a, casts=True)]
         while an.get('k') in ('CXXConstructExpr', 'CXXBindTemporaryExpr', 'MaterializeTemporaryExpr') and (an.get('args') or an.get('ch')):
             an = fn.nodes[fn.strip((an.get('args') or an.get('ch'))[0], casts=True)]
@@ -597,5 +605,5 @@ def run(ctx):
     r6(ctx)
     r7(ctx)
     import rules.common as _common
-    ctx.rule('C16.R9', 'arguments keep their roles across calls: at every call of a repository function in the client and sink sources (circuit, name, level list and user keep their slots on the way to the lookup) whose arguments are named like parameters of the callee, no two of them are passed crosswise (argument i named like parameter j and argument j like parameter i)', minimum=40)
-    _common.swapped_args_rule(ctx, 'C16.R9', ('src/ebusd/mainloop', 'src/ebusd/main.', 'src/ebusd/datahandler', 'src/ebusd/mqtt', 'src/ebusd/knx'), 40)
+    ctx.rule('C16.R9', 'arguments keep their roles across calls: at every call of a repository function in the client and sink sources (circuit, name, level list and user keep their slots on the way to the lookup) whose arguments are named like parameters of the callee, no two of them are passed crosswise (argument i named like parameter j and argument j like parameter i)', minimum=12)
+    _common.swapped_args_rule(ctx, 'C16.R9', ('src/ebusd/mainloop', 'src/ebusd/main.', 'src/ebusd/datahandler', 'src/ebusd/mqtt', 'src/ebusd/knx'), 12)
